@@ -233,14 +233,115 @@ def ops19 : List (String × Op) := [
       .ok (reply (decide (Pre_kextract r p)) (validate_kextract r p))
     | "nvecs" => do
       let m ← field j "arg" >>= asInt
-      .ok (reply (decide (Pre_kmode n m)) (validate_kmode n m))
+      .ok (reply (decide (Pre_nvecs shape m 1)) (validate_nvecs shape m 1))
     | _ => do
       let m ← field j "arg" >>= asInt
       .ok (replyInPlace (decide (Pre_kmode n m)) (validate_kmode n m))),
   ("c19_nvecs", fun j => do
     let shape ← field j "shape" >>= asNats
     let m ← field j "arg" >>= asInt
-    .ok (reply (decide (Pre_kmode shape.length m)) (validate_kmode shape.length m))),
+    let r ← field j "R" >>= asInt
+    .ok (reply (decide (Pre_nvecs shape m r)) (validate_nvecs shape m r))),
+  ("c19_mttkrps", fun j => do
+    let shape ← field j "shape" >>= asNats
+    let U ← field j "U" >>= asMatSs
+    .ok (reply (decide (Pre_mttkrps shape U)) (validate_mttkrps shape U))),
+  ("c19_ttsv", fun j => do
+    let shape ← field j "shape" >>= asNats
+    let veclen ← field j "veclen" >>= asNat
+    let skip ← match fieldOpt j "skip" with | none => pure none | some v => do let k ← asInt v; pure (some k)
+    let version : TtsvVersion := match fieldOpt j "version" with
+      | none => .default
+      | some v => match v.getNat? with
+        | .ok 1 => .v1
+        | .ok 2 => .v2
+        | _ => .other
+    let a : TtsvArgs := { shape, veclen, skip, version }
+    .ok (reply (decide (Pre_ttsv a)) (validate_ttsv a))),
+  ("c19_symmetry", fun j => do
+    let shape ← field j "shape" >>= asNats
+    let fn ← field j "fn" >>= asStr
+    let grps ← match fieldOpt j "grps" with | none => pure none | some v => do let g ← asIntMat v; pure (some g)
+    let old := match fieldOpt j "old" with | some (.bool b) => b | _ => false
+    match fn with
+    | "symmetrize" => .ok (reply (decide (Pre_symmetrize shape grps)) (validate_symmetrize shape grps old))
+    | "issymmetric" => .ok (reply (decide (Pre_issymmetric shape grps)) (validate_issymmetric shape grps))
+    | _ => .ok (reply (decide (Pre_ksymmetrize shape)) (validate_ksymmetrize shape))),
+  ("c19_kmatch", fun j => do
+    let sa ← field j "sa" >>= asNats
+    let sb ← field j "sb" >>= asNats
+    let ra ← field j "ra" >>= asNat
+    let rb ← field j "rb" >>= asNat
+    let fn ← field j "fn" >>= asStr
+    let pre := decide (Pre_kmatch sa sb ra rb)
+    let v := validate_kmatch sa sb ra rb
+    .ok (if fn == "fixsigns" then replyInPlace pre v else reply pre v)),
+  ("c19_update", fun j => do
+    let shape ← field j "shape" >>= asNats
+    let r ← field j "R" >>= asNat
+    let modes ← field j "modes" >>= asInts
+    let datalen ← field j "n" >>= asNat
+    let a : UpdateArgs := { shape, R := r, modes, datalen }
+    .ok (replyInPlace (decide (Pre_update a)) (validate_update a))),
+  ("c19_reconstruct", fun j => do
+    let shape ← field j "shape" >>= asNats
+    let modes ← optIntsF j "modes"
+    let samples ← match fieldOpt j "samples" with
+      | none => pure none
+      | some v => do
+        let l ← asList (fun (x : Json) => do
+          let k ← field x "k" >>= asStr
+          if k == "idx" then do let m ← field x "max" >>= asNat; pure (SampleS.idx m)
+          else do let r ← field x "rows" >>= asNat; let c ← field x "cols" >>= asNat; pure (SampleS.mat r c)) v
+        pure (some l)
+    .ok (reply (decide (Pre_reconstruct shape samples modes)) (validate_reconstruct shape samples modes))),
+  ("c19_from_function", fun j => do
+    let k ← field j "k" >>= asStr
+    let shape ← field j "shape" >>= asNats
+    match k with
+    | "tensor" => do
+      let ds ← field j "ret" >>= asNats
+      .ok (reply (decide (Pre_tensor ds shape)) (validate_tensor ds shape))
+    | "sptensor" => do
+      let nz ← field j "nz" >>= asInt
+      let ok ← field j "ok" >>= asBool
+      .ok (reply (decide (Pre_spFromFunction shape nz ok)) (validate_spFromFunction shape nz ok))
+    | _ => do
+      let r ← field j "R" >>= asNat
+      let ret ← field j "ret" >>= asMatSs
+      .ok (reply (decide (Pre_kfromFunction shape r ret)) (validate_kfromFunction shape r ret))),
+  ("c19_matindex", fun j => do
+    let k ← field j "k" >>= asStr
+    match k with
+    | "tenmat" => do
+      let mshape ← field j "mshape" >>= asMatS
+      let i ← field j "i" >>= asInt
+      let c ← field j "j" >>= asInt
+      .ok (reply (decide (Pre_tenmatIndex mshape i c)) (validate_tenmatIndex mshape i c))
+    | "sptenmat" => do
+      let mshape ← field j "mshape" >>= asMatS
+      let rsubs ← field j "rsubs" >>= asInts
+      let csubs ← field j "csubs" >>= asInts
+      let nvals ← optNatF j "nvals"
+      let a : SpSetArgs := { mshape, rsubs, csubs, nvals }
+      .ok (replyInPlace (decide (Pre_sptenmatSet a)) (validate_sptenmatSet a))
+    | _ => do
+      let ashape ← field j "ashape" >>= asMatS
+      let rdims ← optIntsF j "rdims"
+      let cdims ← optIntsF j "cdims"
+      let tshape ← field j "tshape" >>= asNats
+      .ok (reply (decide (Pre_fromArray ashape rdims cdims tshape)) (validate_fromArray ashape rdims cdims tshape))),
+  ("c19_misc", fun j => do
+    let k ← field j "k" >>= asStr
+    let shape ← field j "shape" >>= asNats
+    match k with
+    | "tenfun" => do
+      let others ← field j "others" >>= asNatMat
+      .ok (reply (decide (Pre_tenfunUnary shape others)) (validate_tenfunUnary shape others))
+    | "viz" => do
+      let lens ← field j "lens" >>= asNats
+      .ok (reply (decide (Pre_viz shape.length lens)) (validate_viz shape.length lens))
+    | _ => .ok (reply (decide (Pre_spmatrix shape)) (validate_spmatrix shape))),
   ("c19_mask", fun j => do
     let shape ← field j "shape" >>= asNats
     let w ← field j "wshape" >>= asNats
@@ -288,8 +389,7 @@ def ops19 : List (String × Op) := [
     | "hosvd" => do
       let ranks ← optIntsF opt "ranks"
       let dimorder ← optIntsF opt "dimorder"
-      let rl := ranks.map List.length
-      .ok (reply (decide (Pre_hosvd shape.length rl dimorder)) (validate_hosvd shape.length rl dimorder))
+      .ok (reply (decide (Pre_hosvd shape ranks dimorder)) (validate_hosvd shape ranks dimorder))
     | "gcp_opt" => do
       let rank ← field j "rank" >>= asInt
       let init ← asInit shape opt "init"
